@@ -85,3 +85,18 @@ Theorem C15_key_eq_implies_eq_refuted_frame :
                    /\ to_hashable true v = Ok k /\ to_hashable true w = Ok k' /\ py_eq k k' = true.
 Proof. exact key_eq_implies_eq_refuted_frame. Qed.
 Print Assumptions C15_key_eq_implies_eq_refuted_frame.
+
+(* proved for all supported values without pandas (masked arrays, opaque objects, mixed/unsortable containers
+   included - whenever both keys exist).  Full statement = the same without `no_pandas`. *)
+Theorem C15_key_eq_implies_eq_partial : forall fp v w k k',
+  supported v = true -> supported w = true -> no_pandas v = true -> no_pandas w = true ->
+  to_hashable fp v = Ok k -> to_hashable fp w = Ok k' -> py_eq k k' = true -> py_same v w = true.
+Proof. exact key_eq_implies_eq. Qed.
+Print Assumptions C15_key_eq_implies_eq_partial.
+
+Example C15_key_eq_implies_eq_nontrivial :   (* [1, 2] vs (1, [2]): both supported, keys exist and differ *)
+  let v := PList [PInt 1; PInt 2] in
+  let w := PTuple [PInt 1; PList [PInt 2]] in
+  supported v = true /\ supported w = true /\ no_pandas v = true /\ no_pandas w = true
+  /\ exists k k', to_hashable true v = Ok k /\ to_hashable true w = Ok k' /\ py_eq k k' = false.
+Proof. repeat split; try (vm_compute; reflexivity). do 2 eexists. repeat split; vm_compute; reflexivity. Qed.
